@@ -27,8 +27,11 @@ contract('AdbDevice._filesync_flush',
          params={'self': 'obj:AdbDevice', 'adb_info': 'obj:AdbInfo', 'filesync_info': 'obj:FSInfo'},
          props=['C04', 'C07', 'C10', 'C12'],
          requires=STREAM_OK + FS_INV + [NOLOCK],
-         modifies=IO_MOD + RD_MOD + [FS + '.send_idx'],
-         ensures=[('C04,C07', 'one-WRTE-with-the-buffered-bytes',
+         modifies=IO_MOD + RD_MOD + [FS + '.send_idx', 'G.sync_flushed'],
+         ghost_exit=[('G.sync_flushed', 'store(G.sync_flushed, {0}, G.sync_flushed[{0}] + old({1}.send_buffer)[:old({1}.send_idx)])'.format(LID, FS))],
+         ensures=[('C07', 'flushed-bytes-logged', 'G.sync_flushed == store(old(G.sync_flushed), {0}, old(G.sync_flushed)[{0}] + '
+                                                  'old({1}.send_buffer)[:old({1}.send_idx)])'.format(LID, FS)),
+                  ('C04,C07', 'one-WRTE-with-the-buffered-bytes',
                    'G.wire == old(G.wire) + frame(WRTE, adb_info.local_id, adb_info.remote_id, old({0}.send_buffer)[:old({0}.send_idx)])'.format(FS)),
                   ('C07', 'payload-within-maxdata', 'old({0}.send_idx) <= {0}._maxdata'.format(FS)),
                   ('C04', 'stop-and-wait-OKAY-received-before-returning', 'D_cmd({0}, {1}) == OKAY and G.di == store(old(G.di), {0}, {1} + 1)'.format(LID, DI0)),
@@ -55,6 +58,7 @@ contract('AdbDevice._filesync_read_buffered',
          ensures=[('C08,C09', 'exactly-the-next-size-bytes-of-the-sync-stream', 'result == SB({0}, {1}, {1} + size)'.format(LID, P0)),
                   ('C08,C09', 'cursor-advances-by-size', 'G.spos == store(old(G.spos), {0}, {1} + size)'.format(LID, P0)),
                   ('C08,C09', 'rest-stays-buffered', RINV),
+                  ('C08,C09', 'waits-for-no-more-packets-than-needed', '{3} == 0 or G.sgot[{1}] - len(D_data({1}, G.di[{1}] - 1)) - {2} < size'.format(FS, LID, P0, K)),
                   ('C04', 'one-OKAY-per-WRTE-consumed', 'G.wire == old(G.wire) + rep(%s, %s)' % (OKAYF, K)),
                   ('C08,C09,C04', 'only-this-stream-advances', ONLY_OUR_STREAM + ' and ' + ONLY_OUR_SGOT + ' and %s >= 0' % K),
                   RELEASED, MONO],
@@ -62,6 +66,7 @@ contract('AdbDevice._filesync_read_buffered',
          loops={0: dict(invariant=[
              ('C08,C09,C04', '{0}.recv_buffer == SB({1}, {2}, G.sgot[{1}]) and isbytearray({0}.recv_buffer) and {2} <= G.sgot[{1}]'.format(FS, LID, P0)),
              ('C08,C09,C04', 'G.spos == old(G.spos)'),
+             ('C08,C09', '{3} == 0 or G.sgot[{1}] - len(D_data({1}, G.di[{1}] - 1)) - {2} < size'.format(FS, LID, P0, K)),
              ('C08,C09,C04', '%s >= 0 and %s and %s' % (K, ONLY_OUR_STREAM, ONLY_OUR_SGOT)),
              ('C04', 'G.wire == old(G.wire) + rep(%s, %s)' % (OKAYF, K)),
              ('C08,C09,C04,C12', UNLOCKED), ('C08,C09,C04', MONO + ' and G.rpos >= 0'),
@@ -119,7 +124,7 @@ contract('AdbDevice._filesync_read',
          returns=fs_read_returns,
          props=['C08', 'C09', 'C10', 'C07', 'C04', 'C12'],
          requires=STREAM_OK + FS_INV + [RINV, NOLOCK],
-         modifies=IO_MOD + RD_MOD + FS_MOD + ['G.fi', 'G.spos'],
+         modifies=IO_MOD + RD_MOD + FS_MOD + ['G.fi', 'G.spos', 'G.sync_flushed'],
          ghost_exit=[('G.fi', 'store(G.fi, {0}, G.fi[{0}] + 1)'.format(LID))],
          defines=['result[0] == FS_id({0}, {1})'.format(LID, FI),
                   'implies(result[0] != STAT, same(result[2], FS_data({0}, {1})))'.format(LID, FI),
@@ -129,6 +134,8 @@ contract('AdbDevice._filesync_read',
                   'implies(len(result[1]) >= 4, result[1][3] == FS_w({0}, {1}, 4))'.format(LID, FI)],
          ensures=[('C08,C09,C10', 'one-record-logged', 'G.fi == store(old(G.fi), {0}, {1} + 1)'.format(LID, FI)),
                   ('C07,C04', 'pending-output-flushed-first', '{0}.send_idx == 0 and {1}'.format(FS, SEND_KEPT)),
+                  ('C07', 'flushed-bytes-logged', 'G.sync_flushed == store(old(G.sync_flushed), {0}, old(G.sync_flushed)[{0}] + '
+                                                  'old({1}.send_buffer)[:old({1}.send_idx)])'.format(LID, FS)),
                   ('C08,C09,C10', 'record-id-from-first-header-word', '%s in FILESYNC_WIRE_TO_ID and result[0] == %s' % (SBW(0), REC_ID)),
                   ('C08,C09,C10', 'id-is-expected', 'result[0] in expected_ids'),
                   ('C08,C09', 'header-words-in-order',
@@ -152,3 +159,117 @@ contract('AdbDevice._filesync_read',
                                                  RELEASED, MONO],
                         'KeyError': [('C10', 'unknown-record-id-only', 'not (%s in FILESYNC_WIRE_TO_ID)' % SBW(0)), RELEASED, MONO]}),
          doc='flushes pending output, then takes exactly one sync record off (receive buffer ++ later WRTE payloads)')
+
+
+# ---------------------------------------------------------------------------------------------------------------------
+# sending side: _filesync_send, max_chunk_size  (C07)
+
+FS_INV_S = FS_INV + ['{0}.recv_message_size >= 8'.format(FS)]
+OLD_PENDING = 'old({0}.send_buffer)[:old({0}.send_idx)]'.format(FS)
+
+contract('AdbDevice.max_chunk_size',
+         real=dev('max_chunk_size'),
+         params={'self': 'obj:AdbDevice'}, returns='int', props=['C07'], pure=True,
+         ensures=[('C07', 'min-of-64KiB-and-half-maxdata-else-legacy',
+                   'result == ite(ite(self._maxdata // 2 < 65536, self._maxdata // 2, 65536) != 0, ite(self._maxdata // 2 < 65536, self._maxdata // 2, 65536), 2048)'),
+                  ('C07', 'fits-a-WRITE-with-its-header-for-every-negotiable-maxdata',
+                   'implies(self._maxdata >= 4096 and self._maxdata <= 2**20, result >= 1 and result <= 65536 and 8 + result < self._maxdata)')])
+
+contract('AdbDevice._filesync_send',
+         real=dev('_filesync_send'),
+         params={'self': 'obj:AdbDevice', 'command_id': 'bytes', 'adb_info': 'obj:AdbInfo', 'filesync_info': 'obj:FSInfo', 'data': 'bytes',
+                 'size': 'opt[int]'},
+         variants=[{'data': 'bytes'}, {'data': 'str'}],
+         props=['C07', 'C04', 'C12'],
+         requires=STREAM_OK + FS_INV_S + ['command_id in FILESYNC_ID_TO_WIRE',
+                                          ('C07', 'record-fits-the-send-buffer', '8 + len(utf8(data)) <= {0}._maxdata'.format(FS)), NOLOCK],
+         modifies=IO_MOD + RD_MOD + FS_MOD + ['G.sync_out', 'G.sync_flushed', 'G.nsync', 'G.pushed'],
+         lets=[('PAY', 'utf8(data)'),
+               ('SZ', 'ite(isnone(size), len(utf8(data)), val(size))'),
+               ('FLUSH', 'not (old({0}.send_idx) + old({0}.recv_message_size) + len(utf8(data)) < old({0}._maxdata))'.format(FS))],
+         ghost_exit=[('G.sync_out', 'store(G.sync_out, {0}, G.sync_out[{0}] + le32(FILESYNC_ID_TO_WIRE[command_id]) + '
+                                    'le32(ite(isnone(size), len(utf8(data)), val(size))) + utf8(data))'.format(LID)),
+                     ('G.nsync', 'store(G.nsync, {0}, G.nsync[{0}] + 1)'.format(LID)),
+                     ('G.pushed', 'store(G.pushed, {0}, G.pushed[{0}] + ite(command_id == DATA, utf8(data), b""))'.format(LID))],
+         ensures=[('C07', 'size-field-in-range', 'SZ >= 0 and SZ < 2**32'),
+                  ('C07', 'send-buffer-never-grows', 'len({0}.send_buffer) == old(len({0}.send_buffer)) and {0}._maxdata == old({0}._maxdata)'.format(FS)),
+                  ('C07', 'record-appended-after-pending-bytes-or-after-a-flush',
+                   '{0}.send_buffer[:{0}.send_idx] == ite(FLUSH, b"", {1}) + le32(FILESYNC_ID_TO_WIRE[command_id]) + le32(SZ) + PAY'.format(FS, OLD_PENDING)),
+                  ('C07', 'index-after-the-record', '{0}.send_idx == ite(FLUSH, 0, old({0}.send_idx)) + 8 + len(PAY)'.format(FS)),
+                  ('C07,C04', 'at-most-one-flush-of-exactly-the-pending-bytes',
+                   'G.wire == old(G.wire) + ite(FLUSH, frame(WRTE, adb_info.local_id, adb_info.remote_id, %s), b"")' % OLD_PENDING),
+                  ('C07', 'sync-stream-log', 'G.sync_out == store(old(G.sync_out), {0}, old(G.sync_out)[{0}] + le32(FILESYNC_ID_TO_WIRE[command_id]) + le32(SZ) + PAY) '
+                                             'and G.sync_flushed == store(old(G.sync_flushed), {0}, old(G.sync_flushed)[{0}] + ite(FLUSH, {1}, b""))'.format(LID, OLD_PENDING)),
+                  ('C07', 'record-count-and-payload-log', 'G.nsync == store(old(G.nsync), {0}, old(G.nsync)[{0}] + 1) and '
+                                                          'G.pushed == store(old(G.pushed), {0}, old(G.pushed)[{0}] + ite(command_id == DATA, PAY, b""))'.format(LID)),
+                  ('C04', 'flush-waits-for-its-OKAY', 'G.di == store(old(G.di), {0}, {1} + ite(FLUSH, 1, 0)) and implies(FLUSH, D_cmd({0}, {1}) == OKAY)'.format(LID, DI0)),
+                  ('C08,C09', 'no-sync-input-consumed', 'G.sgot == old(G.sgot) and same({0}.recv_buffer, old({0}.recv_buffer))'.format(FS)),
+                  RELEASED, MONO],
+         raises=dict(exc_all([RELEASED, MONO]), **{'struct.error': [RELEASED, MONO]}),
+         doc='packs one sync record into the send buffer, flushing first iff it would not fit strictly below maxdata')
+
+
+# ---------------------------------------------------------------------------------------------------------------------
+# stat, list  (C09)
+
+D_MAXDATA = 'self._maxdata >= 4096 and self._maxdata <= 2**20'           # device assumption D-MAXDATA (the range in the property)
+D_PATH = 'len(utf8(device_path)) <= 1024'
+NLID = NEXTID
+S0 = 'old(G.sgot)[%s]' % NLID          # sync bytes received on the new stream before it is opened (its reader starts there)
+F0N = 'old(G.fi)[%s]' % NLID
+FS_OP_MOD = OPEN_MOD + ['G.fi', 'G.sync_out', 'G.sync_flushed', 'G.nsync', 'G.pushed']
+BAD_PATH = [('C13', 'only-for-an-empty-path', 'len(utf8(device_path)) == 0'),
+            ('C13', 'not-a-byte-written', 'G.wire == old(G.wire) and G.nwrites == old(G.nwrites)'),
+            ('C13', 'no-local-file-created', 'G.files_opened == old(G.files_opened)'),
+            ('C13', 'nothing-read-no-stream-opened', 'G.rpos == old(G.rpos) and self._local_id == old(self._local_id) and G.di == old(G.di)'),
+            RELEASED]
+FS_FAIL = [('AdbCommandFailureException', [RELEASED, MONO]), ('InvalidResponseError', [RELEASED, MONO]), ('KeyError', [RELEASED, MONO]),
+           ('DevicePathInvalidError', BAD_PATH)]
+ONLY_NEW_STREAM = ('G.di == store(old(G.di), {0}, G.di[{0}]) and G.fi == store(old(G.fi), {0}, G.fi[{0}]) and '
+                   'G.sgot == store(old(G.sgot), {0}, G.sgot[{0}])').format(NLID)
+
+contract('AdbDevice.stat',
+         real=dev('stat'),
+         params={'self': 'obj:AdbDevice', 'device_path': 'str', 'transport_timeout_s': 'opt[real]', 'read_timeout_s': 'real'},
+         returns='tuple[int,int,int]',
+         props=['C09', 'C13', 'C04', 'C12'],
+         requires=OP_REQ + [D_MAXDATA, D_PATH],
+         modifies=FS_OP_MOD,
+         ensures=[AVAIL, ('C13', 'path-not-empty', 'len(utf8(device_path)) > 0'),
+                  ('C09', 'exact-triple-of-the-STAT-record', 'FS_id({0}, {1}) == STAT and result == (FS_w({0}, {1}, 1), FS_w({0}, {1}, 2), FS_w({0}, {1}, 3))'.format(NLID, F0N)),
+                  ('C09', 'the-STAT-record-is-the-first-16-sync-bytes-however-packetised',
+                   'result == (unle32(SB({0}, {1} + 4, {1} + 8)), unle32(SB({0}, {1} + 8, {1} + 12)), unle32(SB({0}, {1} + 12, {1} + 16)))'.format(NLID, S0)),
+                  ('C09,C04', 'stream-closed-afterwards', 'D_cmd({0}, G.di[{0}] - 1) == CLSE'.format(NLID)),
+                  ('C09', 'one-record-read', 'G.fi == store(old(G.fi), {0}, {1} + 1)'.format(NLID, F0N)),
+                  ('C09,C08', 'only-the-new-stream-advances', ONLY_NEW_STREAM),
+                  ('C14', 'stream-id', 'self._local_id == %s' % NLID),
+                  RELEASED, MONO],
+         raises=op_raises(FS_FAIL))
+
+contract('AdbDevice.list',
+         real=dev('list'),
+         params={'self': 'obj:AdbDevice', 'device_path': 'str', 'transport_timeout_s': 'opt[real]', 'read_timeout_s': 'real'},
+         returns='list[tuple[bytearray,int,int,int]]',
+         locals={'files': 'list[tuple[bytearray,int,int,int]]'},
+         props=['C09', 'C13', 'C04', 'C12'],
+         requires=OP_REQ + [D_MAXDATA, D_PATH],
+         modifies=FS_OP_MOD,
+         ensures=[AVAIL, ('C13', 'path-not-empty', 'len(utf8(device_path)) > 0'),
+                  ('C09', 'one-entry-per-DENT-record-before-DONE', 'len(result) == G.fi[{0}] - {1} - 1 and FS_id({0}, G.fi[{0}] - 1) == DONE'.format(NLID, F0N)),
+                  ('C09', 'entries-carry-the-exact-name-mode-size-mtime-in-order', 'dents_are(result, {0}, {1}, len(result))'.format(NLID, F0N)),
+                  ('C09,C04', 'stream-closed-afterwards', 'D_cmd({0}, G.di[{0}] - 1) == CLSE'.format(NLID)),
+                  ('C14', 'stream-id', 'self._local_id == %s' % NLID),
+                  RELEASED, MONO],
+         raises=op_raises(FS_FAIL),
+         loops={0: dict(invariant=[
+             ('C09,C04,C12', 'not isnone(adb_info.local_id) and val(adb_info.local_id) == {0} and not isnone(adb_info.remote_id)'.format(NLID)),
+             ('C09', 'len(files) == G.fi[{0}] - {1} and G.fi[{0}] >= {1}'.format(NLID, F0N)),
+             ('C09', 'dents_are(files, {0}, {1}, len(files))'.format(NLID, F0N)),
+             ('C09', 'G.fi == store(old(G.fi), {0}, G.fi[{0}])'.format(NLID)),
+             ('C09,C04', FS_INV_S[0] + ' and ' + FS_INV_S[1]),
+             ('C09,C04', RINV.replace(LID, NLID)),
+             ('C09,C04', "{0}.recv_message_format == b'<5I' and {0}.recv_message_size == 20".format(FS)),
+             ('C09,C04,C12', UNLOCKED), ('C09,C04', MONO + ' and G.rpos >= 0'),
+             ('C09', 'old(self._available) and len(utf8(device_path)) > 0 and self._local_id == %s' % NLID),
+         ])},
+         doc='the inlined _filesync_read_until generator reads one record per iteration; DENT records become entries, DONE ends the listing')
